@@ -2,7 +2,7 @@
 """Markdown table of the kept seeded changes (from seeded/*/meta.json) for DESIGN.md section 9.6."""
 import glob, json, os, re
 rows = []
-for f in sorted(glob.glob('/verif/seeded/*/meta.json')):
+for f in sorted(glob.glob('/verif/seeded/C*/meta.json')):
     m = json.load(open(f))
     home = m['property']
     title = re.sub(r'^C\d\d\s*[/—-]*\s*(change|regression|mutation)?\s*\d*\s*[—:-]*\s*', '', m.get('title', ''), flags=re.I).strip() or m.get('title', '')
